@@ -14,7 +14,9 @@ Definition is_shell_segs (segs : list bytes) : bool :=
   | [c] => beq c (txt "c") || beq c (txt "io")
   | a :: b :: r =>
       (beq a (txt "io")) ||
-      ((beq a (txt "i") || beq a (txt "o")) && negb (beq b []) && match r with [] => true | _ => false end)
+      ((beq a (txt "i") || beq a (txt "o")) && negb (beq b []) && negb (beq b [47]) && match r with [] => true | _ => false end)
+      (* an element that decodes to exactly "/" is the mux's own marker for a trailing slash and does not match {id}:
+         "/i/%2f" goes to the catch-all (found by the thorough tier) *)
   | [] => false
   end.
 Definition is_shell_path (p : bytes) : bool :=
